@@ -127,8 +127,9 @@ class MirOb:
     def __init__(self, name, fn, inputs, post, desc, eval_key, pre=None, eval_args=None, functions=None,
                  bounds="full width of the input types; loop-free", outside=None, tier="quick", modes=("dev", "release"),
                  panic_ok=None, min_paths=1, probes=None, loop_bound=8, out_of_ref=None, uf_mul=False, timeout_ms=30000,
-                 eval_out=None, ret_shape="Duration", native_refs=None, pin_vars=None):
+                 eval_out=None, ret_shape="Duration", native_refs=None, pin_vars=None, summaries=None):
         self.pin_vars = pin_vars
+        self.summaries = summaries or {}
         self.name, self.fn, self.inputs, self.post, self.desc = name, fn, inputs, post, desc
         self.eval_key, self.pre, self.eval_args = eval_key, pre, eval_args
         self.functions, self.bounds, self.outside, self.tier, self.modes = functions or [fn], bounds, outside, tier, modes
@@ -275,6 +276,7 @@ def run_sym(eng, ob, fn_item, subst_vals=None):
     eng.static_vals[holder_uid] = {i: v for i, v in enumerate(ref_slots)}
     real_args = [Ref(holder_uid, a[1]) if isinstance(a, tuple) else a for a in args]
     eng.loop_bound = ob.loop_bound
+    eng.summaries = dict(ob.summaries)
     eng.use_uf_mul = ob.uf_mul and subst_vals is None
     env["__mul"] = (lambda a, b: eng.mul(Z(a), Z(b))) if eng.use_uf_mul else (lambda a, b: Z(a) * Z(b))
     pre = list(cons)
@@ -705,6 +707,10 @@ def parse_shape(shape, toks):
         return EnumV("Option<Ordering>", 1, (EnumV("Ordering", int(toks[1]), (), None),), "Some") if toks[0] == "Some" else EnumV("Option", 0, (), "None")
     if shape == "Result<i64>":
         return EnumV("Result", 0, (I("i64", toks[1]),), "Ok") if toks[0] == "Ok" else EnumV("Result", 1, (Opaque("e"),), "Err")
+    if shape == "Result<Epoch>":
+        if toks[0] == "Ok":
+            return EnumV("Result", 0, (parse_shape("Epoch", toks[1:]),), "Ok")
+        return EnumV("Result", 1, (Opaque("e"),), "Err")
     if shape == "Result<u64>":
         return EnumV("Result", 0, (I("u64", toks[1]),), "Ok") if toks[0] == "Ok" else EnumV("Result", 1, (Opaque("e"),), "Err")
     if shape == "TimeSeries":
